@@ -27,6 +27,9 @@ type c09Script struct {
 	Type    byte     `json:"type"`
 	Session uint32   `json:"session"`
 	Pkts    []c09Pkt `json:"pkts"`
+	// Seq0: the sequence number of the script's first packet (0 = 1); a script that reaches 255 gets no
+	// reply to that packet - and that is all that happens
+	Seq0 int `json:"seq0,omitempty"`
 }
 
 type c09Case struct {
@@ -35,6 +38,9 @@ type c09Case struct {
 	Scripts []c09Script  `json:"scripts"`
 	Order   []int        `json:"order"`  // mux: whose turn
 	Assign  []int        `json:"assign"` // conns: connection of each script
+	// Coalesce (mux): Coalesce[k] says that the packets of turns k and k+1, if they belong to different
+	// sessions, reach the server in one read (two clients' packets coalesced by a single-connect proxy)
+	Coalesce []bool `json:"coalesce,omitempty"`
 }
 
 // c09Reply is what a session observes for one request.
@@ -167,7 +173,15 @@ func genC09(t *rapid.T) c09Case {
 			id = uint32(0x7000 + i)
 		}
 		used[[2]uint32{uint32(conn), id}] = true
-		c.Scripts = append(c.Scripts, genC09Script(t, c.World, id))
+		sc := genC09Script(t, c.World, id)
+		if rapid.IntRange(0, 5).Draw(t, "high_seq") == 0 {
+			// so that its last or last-but-one packet is numbered 255
+			sc.Seq0 = 255 - 2*rapid.IntRange(0, len(sc.Pkts)).Draw(t, "seq_back")
+			if sc.Seq0 < 1 {
+				sc.Seq0 = 1
+			}
+		}
+		c.Scripts = append(c.Scripts, sc)
 		c.Assign = append(c.Assign, conn)
 	}
 	total := 0
@@ -184,6 +198,11 @@ func genC09(t *rapid.T) c09Case {
 		left[i]--
 		c.Order = append(c.Order, i)
 	}
+	if c.Mode == "mux" && rapid.Bool().Draw(t, "coalescing") {
+		for range c.Order {
+			c.Coalesce = append(c.Coalesce, rapid.IntRange(0, 2).Draw(t, "coalesce") == 0)
+		}
+	}
 	return c
 }
 
@@ -192,6 +211,45 @@ type c09Session struct {
 	sc   c09Script
 	next int
 	seq  int
+}
+
+func newC09Session(sc c09Script) *c09Session {
+	s := &c09Session{sc: sc, seq: 1}
+	if sc.Seq0 > 1 {
+		s.seq = sc.Seq0
+	}
+	return s
+}
+
+// wire builds the session's next packet without sending it.
+func (s *c09Session) wire(key []byte) ([]byte, bool) {
+	if s.next >= len(s.sc.Pkts) || s.seq > 255 {
+		return nil, false
+	}
+	p := s.sc.Pkts[s.next]
+	h := model.Header{Version: 0xc0 | p.Minor, Type: s.sc.Type, Seq: byte(s.seq), Session: s.sc.Session}
+	return model.Frame(key, h, p.Body), true
+}
+
+// replyOf picks the packets answering this session out of what came back for two coalesced requests.
+func (s *c09Session) replyOf(pkts []model.Packet, rest []byte, closed bool, key []byte) c09Reply {
+	r := c09Reply{Closed: closed}
+	for _, p := range pkts {
+		if p.H.Session != s.sc.Session {
+			continue
+		}
+		if r.N == 0 {
+			r.Header = fmt.Sprintf("%x", model.EncodeHeader(p.H))
+			r.Body = fmt.Sprintf("%x", p.Clear(key))
+		}
+		r.N++
+	}
+	if len(rest) != 0 {
+		r.N = -1
+	}
+	s.next++
+	s.seq += 2
+	return r
 }
 
 func (s *c09Session) step(d *connDriver, key []byte) (c09Reply, bool, error) {
@@ -227,7 +285,7 @@ func c09Alone(w cfggen.World, sc c09Script) ([]c09Reply, error) {
 	if err != nil {
 		return nil, err
 	}
-	s := &c09Session{sc: sc, seq: 1}
+	s := newC09Session(sc)
 	var out []c09Reply
 	for {
 		r, ok, err := s.step(d, []byte(cfggen.KeyA))
@@ -265,10 +323,34 @@ func runC09(t failer, c c09Case) (overlap bool) {
 		}
 		sess := make([]*c09Session, len(c.Scripts))
 		for i, sc := range c.Scripts {
-			sess[i] = &c09Session{sc: sc, seq: 1}
+			sess[i] = newC09Session(sc)
 		}
 		started, finished := map[int]bool{}, map[int]bool{}
-		for _, i := range c.Order {
+		for k := 0; k < len(c.Order); k++ {
+			i := c.Order[k]
+			if k < len(c.Coalesce) && c.Coalesce[k] && k+1 < len(c.Order) && c.Order[k+1] != i && !d.c.Closed() {
+				j := c.Order[k+1]
+				w1, ok1 := sess[i].wire(key)
+				w2, ok2 := sess[j].wire(key)
+				if ok1 && ok2 {
+					ev.Class("two-sessions-packets-in-one-read")
+					pkts, rest, closed, err := d.send(append(append([]byte{}, w1...), w2...))
+					if err != nil {
+						t.Fatalf("%v", err)
+					}
+					got[i] = append(got[i], sess[i].replyOf(pkts, rest, closed, key))
+					got[j] = append(got[j], sess[j].replyOf(pkts, rest, closed, key))
+					for _, x := range []int{i, j} {
+						started[x] = true
+						if sess[x].next >= len(c.Scripts[x].Pkts) {
+							finished[x] = true
+						}
+					}
+					overlap = true
+					k++
+					continue
+				}
+			}
 			r, ok, err := sess[i].step(d, key)
 			if err != nil {
 				t.Fatalf("%v", err)
@@ -318,7 +400,7 @@ func runC09(t failer, c c09Case) (overlap bool) {
 				}
 				sess := map[int]*c09Session{}
 				for _, i := range mine {
-					sess[i] = &c09Session{sc: c.Scripts[i], seq: 1}
+					sess[i] = newC09Session(c.Scripts[i])
 				}
 				for progress := true; progress; {
 					progress = false
@@ -375,6 +457,9 @@ func classifyC09(c c09Case, overlap bool) {
 	ev.Class("mode:" + c.Mode)
 	for _, s := range c.Scripts {
 		ev.Class("script:" + s.Kind)
+		if s.Seq0 > 1 {
+			ev.Class("script-reaching-sequence-255")
+		}
 	}
 	same := false
 	if c.Mode == "conns" {
